@@ -202,10 +202,14 @@ def case_store(ctx, inp):
     import dask.array as da
     from dask.delayed import Delayed, delayed
     srcs, tgts, regs, exps = [], [], [], []
+    same = inp.get("same_source")   # the very same source stored into several targets that look alike
     for i, s in enumerate(inp["sources"]):
         shape = [sum(c) for c in s["chunks"]]
-        a = (np.arange(int(np.prod(shape))).reshape(shape) + 1) * (i + 1)
-        srcs.append(da.from_array(a, chunks=tuple(tuple(c) for c in s["chunks"])))
+        a = (np.arange(int(np.prod(shape))).reshape(shape) + 1) * (1 if same else i + 1)
+        if same == "object" and srcs:
+            srcs.append(srcs[0])
+        else:
+            srcs.append(da.from_array(a, chunks=tuple(tuple(c) for c in s["chunks"])))
         t = np.full(s["tshape"], -1)
         tgts.append(t)
         r = None if s["region"] is None else tuple(_sl(x) for x in s["region"])
@@ -223,7 +227,7 @@ def case_store(ctx, inp):
         # the same region tuple for every source: recompute the expectation
         for i, (s, e) in enumerate(zip(inp["sources"], exps)):
             shape = [sum(c) for c in s["chunks"]]
-            a = (np.arange(int(np.prod(shape))).reshape(shape) + 1) * (i + 1)
+            a = (np.arange(int(np.prod(shape))).reshape(shape) + 1) * (1 if same else i + 1)
             e[...] = -1
             e[regs[0]] = a
     sched = inp["scheduler"]
@@ -274,6 +278,8 @@ def case_store(ctx, inp):
         ctx.branch("store-regions")
     if len(srcs) > 1:
         ctx.branch("store-multi-source")
+    if same and len(srcs) > 1:
+        ctx.branch("store-same-source-equal-targets")
     if not inp["compute"]:
         ctx.branch("store-compute-false")
     if inp["return_stored"]:
@@ -405,10 +411,15 @@ def generate(ctx):
         k = rng.choice([1, 1, 2, 3])
         sources = [_rand_source(rng, maxn=4) for _ in range(k)]
         one = k > 1 and rng.random() < 0.15
+        same = None
         if one:
             # same shape and region for all
             sources = [dict(sources[0], chunks=[list(random_chunks(rng, sum(c))) for c in sources[0]["chunks"]]) for _ in range(k)]
-        yield "store", {"sources": sources, "single": rng.random() < 0.7, "lock": rng.choice(["true", "false", "lock", "slock"]),
+        elif k > 1 and rng.random() < 0.45:
+            # the same source (same object, or an equal one) into several targets with identical content
+            sources = [dict(sources[0]) for _ in range(k)]
+            same = rng.choice(["object", "equal"])
+        yield "store", {"same_source": same, "sources": sources, "single": rng.random() < 0.7, "lock": rng.choice(["true", "false", "lock", "slock"]),
                         "compute": rng.random() < 0.6, "return_stored": rng.random() < 0.4,
                         "scheduler": rng.choice(["sync", "sync", "threads"]), "delayed_target": rng.random() < 0.15,
                         "one_region_for_all": one}
